@@ -24,7 +24,7 @@ RULE = ('statement lists len<=N over the menu x skip_unknown forms; one evaluati
         'and finalize of placeholders. dynamic registration: menu x skip forms x {first parse, already registered}. '
         'non-trivial = list contains an unknown name.')
 ASSUMPTIONS = ['statement menu and skip forms as in coverage', 'scratch module for dynamic registration created per run']
-WITNESSES = ['unknown_binding_dropped', 'unknown_block_dropped', 'known_always_applied', 'unlisted_unknown_error',
+WITNESSES = ['known_from_the_import_on', 'unknown_binding_dropped', 'unknown_block_dropped', 'known_always_applied', 'unlisted_unknown_error',
              'placeholder_kept', 'placeholder_raises_on_use', 'placeholder_raises_at_finalize', 'missing_import_skipped',
              'list_form', 'set_form', 'tuple_form', 'dynamic_known_applied', 'dynamic_unknown_skipped',
              'known_reference_stays_real']
@@ -46,6 +46,8 @@ def setup():
   SCRATCH[0] = d
   with open(os.path.join(d, 'c15mod.py'), 'w') as fh:
     fh.write('def known(a=None, b=None):\n  return (a, b)\n\ndef fn(arg=None):\n  return arg\n\ndef g():\n  return "g"\n')
+  with open(os.path.join(d, 'c15late.py'), 'w') as fh:      # registers its configurable when it is imported
+    fh.write('import gin\n\n@gin.configurable\ndef late_fn(a=None, b=None):\n  return (a, b)\n')
   sys.path.insert(0, d)
   import atexit
   atexit.register(lambda: shutil.rmtree(d, ignore_errors=True))
@@ -323,7 +325,47 @@ def run_dyn_case(case, res):
       res.violation('dynamic_unknown_ref_accepted', '%r: skip_unknown=%r accepted; config %r' % (desc, skip, got), desc)
 
 
+# ------------------------------------------------------------------------- names that become known within one text
+H_DYN = 'from __gin__ import dynamic_registration\n'
+LATE = {
+    # name -> (text, expected config after a lenient parse)
+    'dyn_import_later': (H_DYN + "c15mod.fn.arg = 1\nimport c15mod\nc15mod.fn.arg = 3\n", {('', 'c15mod.fn'): {'arg': 3}}),
+    'dyn_import_later_block': (H_DYN + "c15mod.known:\n  a = 1\nimport c15mod\nc15mod.known:\n  a = 2\n  b = 3\n",
+                               {('', 'c15mod.known'): {'a': 2, 'b': 3}}),
+    'dyn_import_later_scoped': (H_DYN + "s/c15mod.fn.arg = 1\nimport c15mod\ns/c15mod.fn.arg = 3\nc15mod.fn.arg = 4\n",
+                                {('s', 'c15mod.fn'): {'arg': 3}, ('', 'c15mod.fn'): {'arg': 4}}),
+    'import_registers': ("late_fn.a = 1\nimport c15late\nlate_fn.a = 2\nc15late.late_fn.b = 3\n",
+                         {('', 'c15late.late_fn'): {'a': 2, 'b': 3}}),
+    'import_registers_block': ("late_fn:\n  a = 1\nimport c15late\nlate_fn:\n  b = 3\n", {('', 'c15late.late_fn'): {'b': 3}}),
+}
+LATE_SKIPS = {'True': True, 'list': ['c15mod.fn', 'c15mod.known', 'late_fn'], 'tuple': ('c15mod.fn', 'c15mod.known', 'late_fn'),
+              'set': {'c15mod.fn', 'c15mod.known', 'late_fn'}}
+
+
+def run_late_case(case, res):
+  _, name, sname = case
+  text, want = LATE[name]
+  harness.hard_reset()
+  sys.modules.pop('c15late', None)
+  res.case(tuple(case), True)
+  try:
+    gin.parse_config(text, skip_unknown=LATE_SKIPS[sname])
+  except Exception as e:  # pylint: disable=broad-except
+    res.violation('late_known_failed', '%r: %r' % (case, e), list(case))
+    return
+  got = {k: dict(v) for k, v in cfg._CONFIG.items()}
+  res.outcome('late')
+  if got != want:
+    res.violation('dynamic_known_binding_dropped', '%r: a name that is unknown at its first statement and known (import) '
+                  'at its later ones: config %r, expected %r\n%s' % (case, got, want, text), list(case))
+  else:
+    res.w('known_from_the_import_on')
+
+
 def gen(tier):
+  for name in LATE:
+    for sname in LATE_SKIPS:
+      yield ['late', name, sname]
   n = 3 if tier == 'quick' else 4
   keys = list(STM)
   for k in range(1, n + 1):
@@ -347,7 +389,9 @@ def run_shard(i, tier):
     if n % NSH != i:
       continue
     try:
-      if c[0] == 'dyn':
+      if c[0] == 'late':
+        run_late_case(c, res)
+      elif c[0] == 'dyn':
         run_dyn_case(c, res)
       else:
         run_case(c[0], c[1], res)
@@ -363,7 +407,9 @@ def run_shard(i, tier):
 
 def replay(c):
   res = core.Result()
-  if c[0] == 'dyn':
+  if c[0] == 'late':
+    run_late_case(c, res)
+  elif c[0] == 'dyn':
     run_dyn_case(c, res)
   else:
     run_case(c[0], c[1], res)
